@@ -3,19 +3,19 @@
 package c19
 
 import (
-	"sync/atomic"
-	"runtime"
-	"runtime/pprof"
 	"errors"
 	"fmt"
 	"log"
 	"net/url"
 	"os"
 	"path/filepath"
+	"runtime"
 	"runtime/debug"
+	"runtime/pprof"
 	"sort"
 	"strings"
 	"sync"
+	"sync/atomic"
 
 	"go.uber.org/zap"
 	"go.uber.org/zap/verif/internal/ev"
@@ -324,6 +324,18 @@ func buildCase(r *ev.Run, e *env, i int) {
 		var outPCs, errPCs []pathCase
 		cfg.OutputPaths, outPCs = mkList(fault == "bad-output")
 		cfg.ErrorOutputPaths, errPCs = mkList(fault == "bad-error-output")
+		// one valid configuration in three takes its output paths from the front of a longer list that a
+		// second configuration uses in full afterwards (a shared list of destinations)
+		var fullPaths []string
+		var fullPCs []pathCase
+		if fault == "none" && g.P(1, 3) {
+			fullPaths, fullPCs = append([]string{}, cfg.OutputPaths...), append([]pathCase{}, outPCs...)
+			for n := g.Range(1, 3); n > 0; n-- {
+				pc := e.genPath(g, false, true)
+				fullPaths, fullPCs = append(fullPaths, pc.path), append(fullPCs, pc)
+			}
+			cfg.OutputPaths = fullPaths[:len(outPCs)]
+		}
 		switch fault {
 		case "unknown-encoding":
 			cfg.Encoding = "no-such-encoding"
@@ -404,6 +416,21 @@ func buildCase(r *ev.Run, e *env, i int) {
 		check(outPCs, msg, "output")
 		// the IncreaseLevel(Debug) option cannot be honoured on an Info core: zap reports that on the error output
 		check(errPCs, "failed to IncreaseLevel", "error-output")
+		if fullPaths != nil {
+			cfg2 := cfg
+			cfg2.OutputPaths = fullPaths
+			lg2, err2 := cfg2.Build()
+			if err2 != nil {
+				bad("build-spurious-error", "a second configuration using the whole shared path list %v failed: %v", fullPaths, err2)
+				continue
+			}
+			msg2 := fmt.Sprintf("built-again-%d", i)
+			lg2.Info(msg2)
+			_ = lg2.Sync()
+			wit["shared_path_list"] = fullPaths
+			check(fullPCs, msg2, "output (second configuration, whole shared list)")
+			r.Count("builds_from_a_shared_path_list", 1)
+		}
 	}
 }
 
